@@ -1351,7 +1351,7 @@ outer:
 				continue
 			}
 			mine++
-			if !deadline.IsZero() && mine%64 == 0 && time.Now().After(deadline) {
+			if !deadline.IsZero() && (mine%64 == 0 || c03IsBig(e.Def)) && time.Now().After(deadline) {
 				r.NotExhaustive(fmt.Sprintf("budget reached in expected result %s (cases are ordered corpus first, then grammar simplest first)", e.ID))
 				break outer
 			}
